@@ -78,7 +78,9 @@ func init() {
 			inputs = append(inputs, slot{V: wire.StrV(t)})
 		}
 		for _, v := range []wire.Value{wire.Null(), wire.Bool(true), wire.Bool(false), wire.Arr(), wire.Obj(), wire.Arr(wire.Float(1.5), wire.StrV("2")),
-			wire.Obj("a", wire.Float(1)), wire.JNum("1e400"), wire.JNum("92233720368547758070")} {
+			wire.Obj("a", wire.Float(1)), wire.JNum("1e400"), wire.JNum("92233720368547758070"),
+			// nested arrays: lax unwraps one level only
+			wire.Arr(wire.Arr(wire.Float(1.5))), wire.Arr(wire.Float(1.5), wire.Arr(wire.Float(2.5))), wire.Arr(wire.Arr(wire.StrV("1"), wire.Bool(true)))} {
 			inputs = append(inputs, slot{V: v})
 		}
 		u := &ExecUniverse{}
@@ -99,7 +101,7 @@ func init() {
 		}
 		decIn := []slot{}
 		for _, in := range inputs {
-			if in.V.T == "num" && in.V.Rep != "i" || in.V.T == "str" && len(in.V.S) < 6 {
+			if in.V.T == "num" && in.V.Rep != "i" || in.V.T == "str" && len(in.V.S) < 6 || in.V.T == "arr" {
 				decIn = append(decIn, in)
 			}
 		}
